@@ -67,6 +67,134 @@ def _refusal_guards(g: cfgmod.CFG):
     return out
 
 
+# ---------------------------------------------------------------------------
+# R1b: the allocating loop records exactly what was requested (loop invariant)
+# ---------------------------------------------------------------------------
+class _LoopState:
+    def __init__(self, env, conds, appended, dec, writes):
+        self.env, self.conds, self.appended, self.dec, self.writes = env, conds, appended, dec, writes
+
+    def fork(self):
+        return _LoopState(dict(self.env), list(self.conds), self.appended, self.dec, self.writes)
+
+
+def _walk_loop_body(stmts, st, vector_field, ledger_field):
+    """Enumerate the paths of a loop body: yields (state, exit) with exit in fall/break/continue/leave."""
+    if not stmts:
+        yield st, "fall"
+        return
+    s, rest = stmts[0], stmts[1:]
+    if isinstance(s, ast.If):
+        f = lin.formula(s.test, env=st.env)
+        for branch, cond in ((s.body, f), (s.orelse, lin.f_not(f))):
+            b = st.fork()
+            b.conds.append(cond)
+            for st2, ex in _walk_loop_body(branch, b, vector_field, ledger_field):
+                if ex == "fall":
+                    yield from _walk_loop_body(rest, st2, vector_field, ledger_field)
+                else:
+                    yield st2, ex
+        return
+    if isinstance(s, ast.Break):
+        yield st, "break"
+        return
+    if isinstance(s, ast.Continue):
+        yield st, "continue"
+        return
+    if isinstance(s, (ast.Return, ast.Raise)):
+        yield st, "leave"
+        return
+    if isinstance(s, ast.Assign) and len(s.targets) == 1:
+        t = s.targets[0]
+        if isinstance(t, ast.Name):
+            st.env[t.id] = lin.lin_of(s.value, st.env)
+        elif isinstance(t, ast.Subscript) and is_self_attr(t.value, vector_field):
+            held = lin.Lin({norm(t): 1})
+            st.dec = st.dec + held - lin.lin_of(s.value, st.env)
+            st.writes += 1
+        else:
+            raise AnalysisError(f"unrecognised store `{norm(s)[:60]}` in the allocation loop")
+    elif isinstance(s, ast.AugAssign) and isinstance(s.op, (ast.Add, ast.Sub)):
+        v = lin.lin_of(s.value, st.env)
+        sign = 1 if isinstance(s.op, ast.Add) else -1
+        if isinstance(s.target, ast.Name):
+            cur = st.env.get(s.target.id, lin.Lin({s.target.id: 1}))
+            st.env[s.target.id] = cur + v.scale(sign)
+        elif isinstance(s.target, ast.Subscript) and is_self_attr(s.target.value, vector_field):
+            st.dec = st.dec - v.scale(sign)
+            st.writes += 1
+        else:
+            raise AnalysisError(f"unrecognised update `{norm(s)[:60]}` in the allocation loop")
+    elif isinstance(s, ast.Expr) and isinstance(s.value, ast.Call):
+        c = s.value
+        if isinstance(c.func, ast.Attribute) and c.func.attr == "append" and any(
+                is_self_attr(x, ledger_field) for x in ast.walk(c.func.value)):
+            if not (c.args and isinstance(c.args[0], ast.Tuple) and len(c.args[0].elts) == 2):
+                raise AnalysisError("allocation record is no longer a (resource, quantity) pair")
+            st.appended = st.appended + lin.lin_of(c.args[0].elts[1], st.env)
+    elif isinstance(s, (ast.Pass,)):
+        pass
+    else:
+        raise AnalysisError(f"unrecognised statement `{norm(s)[:60]}` in the allocation loop")
+    yield from _walk_loop_body(rest, st, vector_field, ledger_field)
+
+
+def r1b_allocation_invariant(ctx: Context, rule: str = "C01.R1b") -> None:
+    ctx.rule(rule, "loop invariant of Resources.allocate, verified per path of the loop body with linear arithmetic: "
+                   "remaining == requested - (sum of recorded quantities); each availability decrement equals the "
+                   "quantity recorded for it; every `break` leaves with the whole request recorded")
+    cls = ctx.repo.mod(RESOURCES).cls("Resources")
+    fn = method(cls, "allocate")
+    loops = [n for n in ast.walk(fn) if isinstance(n, ast.For) and is_self_attr(n.iter, "_resource_vector")]
+    ctx.floor(rule, "loop over the resource vector in Resources.allocate", len(loops), 1)
+    loop = loops[0]
+    rem = "quantity"
+    for n in fn.body:
+        if isinstance(n, ast.Assign) and isinstance(n.targets[0], ast.Name) and isinstance(n.value, ast.Name) \
+                and n.value.id == "quantity" and n.lineno < loop.lineno:
+            rem = n.targets[0].id
+    R = lin.Lin({"R": 1})
+    start = _LoopState({rem: R}, [], lin.Lin(), lin.Lin(), 0)
+    paths = list(_walk_loop_body(loop.body, start, "_resource_vector", "_current_allocations"))
+    ctx.floor(rule, "paths through the allocation loop body", len(paths), 4)
+    ctx.count("allocate_loop_paths", len(paths))
+    zero = lin.Lin()
+    n_break = 0
+    for i, (st, ex) in enumerate(paths):
+        if ex == "leave":
+            continue
+        held_terms = set()
+        for l in (st.dec, st.appended, st.env.get(rem, R)):
+            held_terms |= {k for k in l.terms if k != "R"}
+        assume = [lin._atom(*lin._canon_le(-lin.Lin({k: 1}), True)) for k in sorted(held_terms)]  # quantities are >= 0
+        pc = ("and", list(st.conds) + assume)
+        if not lin.satisfiable(pc):
+            continue
+        desc = " and ".join(lin.show(c) for c in st.conds) or "always"
+        key = f"Resources.allocate|path {ex} under [{desc[:110]}]"
+
+        def holds(l):
+            return l == zero or lin.entails(pc, lin._atom(*lin._canon_eq(l)))
+        ok_pair = holds(st.dec - st.appended) and st.writes <= 1
+        ctx.check(ok_pair, rule, key + " decrement == recorded", loc(loop), "availability falls by the recorded quantity",
+                  f"on the path [{desc}] the availability decreases by `{st.dec!r}` but `{st.appended!r}` is recorded for the "
+                  "computation: deallocate returns something else than was taken")
+        rem_end = st.env.get(rem, R)
+        if ex == "break":
+            n_break += 1
+            ok = holds(R - st.appended)
+            ctx.check(ok, rule, key + " request fully recorded", loc(loop), "recorded == requested at the exit",
+                      f"the loop is left by `break` on the path [{desc}] with `{st.appended!r}` recorded out of the "
+                      "remaining request R: less (or more) than the requested quantity is allocated")
+        else:
+            ok = holds(rem_end - (R - st.appended))
+            ctx.check(ok, rule, key + " remaining == R - recorded", loc(loop), "invariant preserved",
+                      f"on the path [{desc}] `{rem}` becomes `{rem_end!r}` while `{st.appended!r}` was recorded: the next "
+                      "iteration allocates against a wrong remainder (over- or negative allocation, availability "
+                      "overstated)")
+    ctx.floor(rule, "`break` exits of the allocation loop", n_break, 1)
+
+
 def r1_ledger_guard(ctx: Context) -> None:
     ctx.rule("C01.R1", "the availability test dominates every ledger write in Resources.allocate; in "
                        "allocate_multiple the checking loop dominates the allocating loop over the same collection")
@@ -358,15 +486,16 @@ def r7_fit_tests(ctx: Context) -> None:
 
 
 def run(ctx: Context) -> None:
-    r1_ledger_guard(ctx)
-    r2_who_may_touch(ctx)
-    c04.r1_coindexed(ctx, rule="C01.R3")
-    c04.r2_refusal_changes_nothing(ctx, rule="C01.R6a")
-    r4_simulator_side(ctx)
-    r5_one_worker(ctx)
-    r7_fit_tests(ctx)
+    ctx.isolate(r1_ledger_guard)
+    ctx.isolate(r1b_allocation_invariant)
+    ctx.isolate(r2_who_may_touch)
+    ctx.isolate(c04.r1_coindexed, rule="C01.R3")
+    ctx.isolate(c04.r2_refusal_changes_nothing, rule="C01.R6a")
+    ctx.isolate(r4_simulator_side)
+    ctx.isolate(r5_one_worker)
+    ctx.isolate(r7_fit_tests)
     try:
         from . import c10
-        c10.r1_side_effect_free(ctx, rule="C01.R6")
+        ctx.isolate(c10.r1_side_effect_free, rule="C01.R6")
     except ImportError:
         ctx.note("C10.R1 (policies plan on copies) not available yet")
